@@ -13,7 +13,7 @@ from ..streams import AskedForever, EventLog, Runaway, SimInputStream, SimOutput
 
 PROP = "C18"
 LEVEL = "fault_enumeration"
-RUNS = {"quick": 60000, "thorough": 2000000}
+RUNS = {"quick": 60000, "thorough": 5000000}
 OPS_KEYS = ("script",)
 INFO = {
     "rule": "seeded dialogues: choice lists of 1-5 entries (numeric-looking, duplicated, spaced, "
